@@ -947,6 +947,25 @@ class Program:
         return list(seen.values()), ext, indirect
 
 
+def place_root_fields(body, place, depth=14):
+    """(root local, field path) of a place, seen through pointers held in single-definition temporaries:
+    `_9 = &mut (*_1).samples; (*_9).sample_size = ..` designates (1, ("samples", "sample_size")). Used where a store may be
+    made by a helper that lib.inline spliced into the function (its `self` is then such a temporary)."""
+    l = place["l"]
+    fields = tuple(place_fields(place))
+    for _ in range(depth):
+        defs = [d for d in body.prov.defs.get(l, []) if d[0] != "S" or not d[3]["p"]["proj"]]
+        if len(defs) != 1 or defs[0][0] != "S":
+            break
+        rv = defs[0][3]["rv"]
+        src = rv["p"] if rv["k"] in ("ref", "rawptr") else (rv["o"]["p"] if rv["k"] == "use" and rv["o"]["k"] in ("copy", "move") else None)
+        if src is None or any(p["k"] not in ("deref", "field") for p in src["proj"]):
+            break
+        fields = tuple(place_fields(src)) + fields
+        l = src["l"]
+    return l, fields
+
+
 def nophi(srcs):
     """True when no path-dependent merge (a local with several definitions) lies on the provenance of the value: an
     existential `derives from X` then means `is computed from X on every path`."""
